@@ -120,13 +120,14 @@ func genBLengthStruct(w *codewriter, _ *golang.ReadWriteContext, varname string)
 }
 
 func genBLengthList(w *codewriter, rwctx *golang.ReadWriteContext, varname string, depth int) {
-	t := rwctx.Type
 	// list header
 	w.f("off += 5")
 
 	// if element is basic type like int32, we can speed up the calc by sizeof(int32) * len(l)
-	if t.ValueType != nil {
-		if sz := category2WireSize[t.ValueType.Category]; sz > 0 { // fast path for less code
+	// NOTE: use the element type of the sub-context: for a typedef'd container
+	// t is the reference to the typedef and has no ValueType of its own
+	if rwctx.ValCtx != nil {
+		if sz := category2WireSize[rwctx.ValCtx.Type.Category]; sz > 0 { // fast path for less code
 			w.f("off += len(%s) * %d", varnameVal(rwctx.IsPointer, varname), sz)
 			return
 		}
@@ -143,9 +144,10 @@ func genBLengthList(w *codewriter, rwctx *golang.ReadWriteContext, varname strin
 }
 
 func genBLengthMap(w *codewriter, rwctx *golang.ReadWriteContext, varname string, depth int) {
-	t := rwctx.Type
-	kt := t.KeyType
-	vt := t.ValueType
+	// key and value types come from the sub-contexts: for a typedef'd map
+	// rwctx.Type is the reference to the typedef and has no KeyType/ValueType
+	kt := rwctx.KeyCtx.Type
+	vt := rwctx.ValCtx.Type
 
 	// map header
 	w.f("off += 6")
